@@ -77,6 +77,11 @@ theorem mdl_tables_agree (z : Nat) : qmdlOf z = mdlOf z :=
 theorem anyMetal_mask_table : ∀ z ∈ List.range' 1 118, elemAcc (qMetalV1, qMetalV2) z = !notMetal (capS z) :=
   elemAcc_metal
 
+/-- the element flags behind C08's `notMetal` (Gen/QueryTables.lean) are the flags this property's translator re-extracts from the
+    `Element` subclasses on every run -/
+theorem anyMetal_flags_agree : ∀ z ∈ List.range' 1 118, notMetalFlags.lookup z = some (notMetal z) := by
+  decide +kernel
+
 /-! ## encoders are total and fit 64 bits on the documented domain -/
 
 /-- a molecule atom of the documented domain (`ADom`: Z 1…118, hybridisation 1…4, isotope within −8…+8 of `mdl`, charge −4…4,
